@@ -128,8 +128,9 @@ func (gta *GlobalTSOAllocator) estimateMaxTS(count uint32, suffixBits int) (*pdp
 // Initialize will initialize the created global TSO allocator.
 func (gta *GlobalTSOAllocator) Initialize(int) error {
 	tsoAllocatorRole.WithLabelValues(gta.timestampOracle.dcLocation).Set(1)
-	// The suffix of a Global TSO should always be 0.
-	gta.timestampOracle.suffix = 0
+	// The suffix of a Global TSO is always 0: it is never set to anything else, and writing it here
+	// raced with requests of the same member that read it (estimateMaxTS, precheckLogical) as soon
+	// as the campaign had succeeded.
 	return gta.timestampOracle.SyncTimestamp(gta.leadership)
 }
 
